@@ -31,7 +31,7 @@ def shards(tier):
 
 def gates(c, tier):
     need = ["call:partial-pending-completes>=2-leaves-tail", "call:empty-residue", "cut:inside-header", "chunk:empty", "role:client", "role:server",
-            "chunk:bytearray-overwritten", "chunk:memoryview", "chunk:memoryview-slice-of-larger-buffer", "chunk:memoryview-of-signed-or-char-items", "partition:single-exhaustive", "partition:pairs-exhaustive", "partition:bytewise",
+            "chunk:bytearray-overwritten", "chunk:memoryview", "chunk:memoryview-slice-of-larger-buffer", "chunk:memoryview-of-signed-or-char-items", "caller-edits-returned-messages", "part:stream-with-refused-message", "partition:single-exhaustive", "partition:pairs-exhaustive", "partition:bytewise",
             "probe:compared", "big-entry", "stream:alternative-length-forms", "bystander-session-checked"]
     return [f"never observed {k}" for k in need if c.get(k, 0) == 0]
 
@@ -152,6 +152,19 @@ def probes(sess, role, ids):
     return sig
 
 
+EDIT_CONTROL = ("1.2.3.4.5.6", False, b"edited-by-caller", None)
+
+
+def edited_abs(a):
+    op, mid, body, ctl = a
+    ctl = tuple(ctl) + (EDIT_CONTROL,)
+    if op == "SearchResultEntry":
+        body = (body[0], tuple(body[1]) + (("editedByCaller", (b"x",)),))
+    elif op == "SearchResultReference":
+        body = (tuple(body[0]) + ("ldap://edited-by-caller/",),)
+    return (op, mid, body, ctl)
+
+
 def as_chunk(r, b: bytes, mode: int):
     """Returns (object passed to receive, callable scribbling over the caller's buffer afterwards)."""
     if mode == 0:
@@ -201,6 +214,7 @@ def run_case(sc, stream: bytes, cuts, chunk_modes_seed, baseline=None):
         out.append((f"bystander-exc:{norm_msg(e)}", f"bystander session: {type(e).__name__}: {e}"))
     returned = []
     snaps = []
+    caller_edits = (chunk_modes_seed % 3 == 0) if isinstance(chunk_modes_seed, int) else (len(stream) + sum(cuts)) % 3 == 0
     kept_lists = []  # (list object returned by receive, its length and member identities at return time)
     delivered = b""
     pending_before = 0
@@ -224,6 +238,14 @@ def run_case(sc, stream: bytes, cuts, chunk_modes_seed, baseline=None):
         kept_lists.append((res, len(res), [id(m) for m in res]))
         for m in res:
             returned.append(m)
+            if caller_edits:
+                # the application owns what receive returned: it adds a control (a proxy would) and an attribute / uri
+                m.controls.append(av.b_control(EDIT_CONTROL))
+                if isinstance(m, sl.SearchResultEntry):
+                    m.attributes.append(sl.PartialAttribute("editedByCaller", [b"x"]))
+                elif isinstance(m, sl.SearchResultReference):
+                    m.uris.append("ldap://edited-by-caller/")
+                obs["caller-edits-returned-messages"] = 1
             snaps.append(av.abstract(m))
         if len(returned) != units:
             out.append(("framing-count", f"{units} complete PDUs delivered, {len(returned)} messages returned so far"))
@@ -249,6 +271,8 @@ def run_case(sc, stream: bytes, cuts, chunk_modes_seed, baseline=None):
     if len(returned) != len(expect):
         out.append(("lost-or-duplicated", f"{len(expect)} messages sent, {len(returned)} returned"))
         return out, obs
+    if caller_edits:
+        expect = [edited_abs(a) for a in expect]
     for i, (m, a) in enumerate(zip(returned, expect)):
         got = av.abstract(m)
         if got != a:
@@ -261,7 +285,7 @@ def run_case(sc, stream: bytes, cuts, chunk_modes_seed, baseline=None):
         b_sess, b_msgs, b_probe = baseline
         if sess.state is not b_sess.state:
             out.append(("state-differs-from-single-delivery", f"{sess.state.name} vs {b_sess.state.name}"))
-        for i, (m, bm) in enumerate(zip(returned, b_msgs)):
+        for i, (m, bm) in enumerate(zip(returned, b_msgs) if not caller_edits else ()):
             d = av.same(bm, m, f"msg[{i}]")
             if d:
                 out.append(("differs-from-single-delivery", d))
@@ -359,9 +383,100 @@ def run_shard(ctx: Ctx, acc: Acc):
                                           "encodings": encs if total < 20000 else None})
         if i < 2 and not big:
             acc.sample({"role": sc["role"], "messages": len(encs), "stream": stream[:120], "example_cuts": parts[min(5, len(parts) - 1)][1][:10]})
+    bad_streams(ctx, acc)
+
+
+def run_bad_case(sc, encs, bad, cuts):
+    """A stream whose message number `bad` is one the session must refuse (a response for an id that is not in progress,
+    or a message of the wrong direction). However the stream is cut, every receive call before the one that completes
+    that message's PDU returns normally (exactly the complete earlier messages) and that call raises ProtocolError."""
+    out = []
+    stream = b"".join(encs)
+    ends = list(itertools.accumulate(len(e) for e in encs))
+    bad_end = ends[bad]
+    sess = mk_session(sc)
+    delivered = 0
+    returned = []
+    for ch in C.split(stream, cuts):
+        delivered += len(ch)
+        try:
+            res = sess.receive(ch)
+        except sl.ProtocolError:
+            if delivered < bad_end:
+                out.append(("verdict-depends-on-chunking:rejected-early", f"ProtocolError after {delivered} bytes; the offending message only completes at {bad_end}"))
+            elif sess.state.name != "CLOSED":
+                out.append(("verdict-depends-on-chunking:not-closed", f"state {sess.state.name} after the protocol error"))
+            return out
+        except Exception as e:
+            out.append((f"receive-exc:{norm_msg(e)}", f"{type(e).__name__}: {e}"))
+            return out
+        returned += [av.abstract(m) for m in res]
+        if delivered >= bad_end:
+            out.append(("verdict-depends-on-chunking:accepted", f"a message the session must refuse (message {bad} of the stream: {str(sc['msgs'][bad])[:100]}) was accepted when the stream was cut at {list(cuts)[:8]}; state {sess.state.name}"))
+            return out
+        units = sum(1 for e in ends if e <= delivered)
+        if returned != list(sc["msgs"][:units]):
+            out.append(("lost-or-duplicated:before-refused-message", f"{units} complete PDUs delivered, returned {len(returned)}"))
+            return out
+    return out
+
+
+def bad_streams(ctx, acc):
+    n = ctx.scale(160, 1500)
+    for i in range(n):
+        r = ctx.rng("bad", i)
+        sc = g_scenario(r, gv.SMALL)
+        msgs = list(sc["msgs"])
+        if sc["role"] == "client":
+            nsetup = len(sc["setup"])
+            kind = r.choice(["unknown-id", "unknown-id", "request", "completed"])
+            if kind == "unknown-id":
+                badmsg = gv.g_message(r, gv.SMALL, op=r.choice(["SearchResultEntry", "SearchResultEntry", "SearchResultReference", "SearchResultDone", "ExtendedResponse"]), mid=nsetup + r.choice([1, 5, 1000]))
+                if badmsg[0] == "ExtendedResponse" and badmsg[2][1] == gv.NOTICE_OID:
+                    continue
+                k = r.randrange(0, len(msgs) + 1)
+            elif kind == "request":
+                badmsg = gv.g_message(r, gv.SMALL, op=r.choice(["SearchRequest", "ExtendedRequest", "BindRequest"]), mid=1)
+                k = r.randrange(0, len(msgs) + 1)
+            else:
+                done = [j for j, m in enumerate(msgs) if m[0] in ("SearchResultDone", "ExtendedResponse", "BindResponse") and not (m[0] == "BindResponse" and m[2][0][0] == 14)]
+                if not done:
+                    continue
+                j = r.choice(done)
+                badmsg = (r.choice(["SearchResultEntry", "SearchResultDone"]), msgs[j][1], None, ())
+                badmsg = gv.g_message(r, gv.SMALL, op=badmsg[0], mid=msgs[j][1])
+                k = r.randrange(j + 1, len(msgs) + 1)
+        else:
+            kind = "response"
+            badmsg = gv.g_message(r, gv.SMALL, op=r.choice(["SearchResultDone", "SearchResultEntry", "BindResponse"]), mid=r.choice([1, 2, 50]))
+            k = r.randrange(0, len(msgs) + 1)
+            if any(m[0] == "BindRequest" for m in msgs[:k]):
+                continue  # while BINDING the server model differs; keep this part about the refused message only
+        msgs.insert(k, badmsg)
+        # after a bind request the client is BINDING: later non-bind responses are judged by C08/C09; keep streams simple
+        if sc["role"] == "client" and sc["setup"] and sc["setup"][0][0] == "bind":
+            continue
+        sc2 = {"role": sc["role"], "setup": sc["setup"], "msgs": msgs}
+        encs = [rfc4511.encode(a) for a in msgs]
+        total = sum(len(e) for e in encs)
+        bounds = list(itertools.accumulate(len(e) for e in encs))
+        parts = [[]] + [[c] for c in range(0, total + 1, max(1, total // 120))] + [list(bounds)] + [list(range(1, total))][: 1 if total <= 1500 else 0]
+        for _ in range(10):
+            parts.append(C.g_chunking(r, total, bounds))
+        for cuts in parts:
+            acc.case()
+            acc.count("part:stream-with-refused-message")
+            acc.count("refused-kind:" + kind)
+            acc.nontrivial("bad", i, tuple(cuts))
+            for key, what in run_bad_case(sc2, encs, k, cuts):
+                acc.violation(key, what, {"scenario": sc2, "cuts": list(cuts), "bad": k})
 
 
 def replay(w):
+    if "bad" in w:
+        sc = w["scenario"]
+        sc = {"role": sc["role"], "setup": [tuple(s) for s in sc["setup"]], "msgs": [to_tuple(m) for m in sc["msgs"]]}
+        return run_bad_case(sc, [rfc4511.encode(a) for a in sc["msgs"]], w["bad"], list(w["cuts"]))
     sc = w["scenario"]
     sc = {"role": sc["role"], "setup": [tuple(s) for s in sc["setup"]], "msgs": [to_tuple(m) for m in sc["msgs"]]}
     stream = b"".join(bytes(e) for e in w["encodings"]) if w.get("encodings") else b"".join(rfc4511.encode(a) for a in sc["msgs"])
